@@ -43,6 +43,8 @@ static std::vector<Body> bodies() {
         {"WELSPECS_regroup", "WELSPECS\n 'P1' 'G2' 1 1 1* OIL /\n/\n"},
         {"COMPDAT_P1", "COMPDAT\n 'P1' 1 1 2 2 OPEN 1* 33.0 0.3 /\n/\n"},
         {"COMPDAT_q_new", "COMPDAT\n '?' 3 1 1 1 OPEN 1* 1* 0.25 /\n/\n"},
+        {"COMPDAT_q_range", "COMPDAT\n '?' 3 2 1 3 OPEN 1* 1* 0.25 /\n/\n"},
+        {"COMPDAT_P2_range_dirX", "COMPDAT\n 'P2' 1 3 2 3 OPEN 1* 1* 0.3 3* X /\n/\n"},
         {"COMPLUMP_P1", "COMPLUMP\n 'P1' 1 1 1 2 1 /\n/\n"},
         {"WPIMULT_q", "WPIMULT\n '?' 2.0 /\n/\n", true},
         {"WLIST", "WLIST\n '*L1' NEW P1 P2 /\n/\n"},
